@@ -384,7 +384,14 @@ func (g *gctx) genValue(rt reflect.Type, inList, nilElems bool) reflect.Value {
 		panic(err)
 	}
 	if info.IsAminoMarshaler {
-		panic(fmt.Sprintf("no custom generator for AminoMarshaler type %v", rt))
+		// generic route: build a repr value, then UnmarshalAmino it
+		repr := g.genValue(info.ReprType.Type, false, false)
+		pv := reflect.New(rt)
+		outs := pv.MethodByName("UnmarshalAmino").Call([]reflect.Value{repr})
+		if !outs[0].IsNil() {
+			return reflect.Zero(rt)
+		}
+		return pv.Elem()
 	}
 	switch rt.Kind() {
 	case reflect.Interface:
@@ -459,6 +466,8 @@ func (g *gctx) genValue(rt reflect.Type, inList, nilElems bool) reflect.Value {
 		return reflect.ValueOf(genUint(r, 32)).Convert(rt)
 	case reflect.Uint64, reflect.Uint:
 		return reflect.ValueOf(genUint(r, 64)).Convert(rt)
+	case reflect.Float32, reflect.Float64:
+		return reflect.ValueOf(float64(genInt(r, 16)) / 4).Convert(rt)
 	case reflect.Bool:
 		return reflect.ValueOf(r.Bool()).Convert(rt)
 	case reflect.String:
